@@ -50,6 +50,9 @@ impl GlobalConstantPropagator {
                     if *mutable || self.constants.contains_key(name) {
                         continue;
                     }
+                    if !super::super::binders::is_bound_once(&self.binders, name) {
+                        continue;
+                    }
                     if self.is_constant_expr(initializer) {
                         let mut resolved = initializer.clone();
                         self.substitute_in_expr_for_collection(&mut resolved);
